@@ -49,7 +49,7 @@ def setup(c):
                      "one tick of the REAL background updater goroutine (updateTS/doUpdate, triggered through its own loop by an add-only export; its PD response is held like any other)} "
                      "(quick; 4 callers: every issue/arrival order after all have called; thorough: 4 callers fully interleaved for kinds {get, validate-next}, every kind mix with starts first), "
                      "cancellation: callers whose context the script may cancel at any point while they run (before PD issues, while the response is pending, while waiting for a flight, after completion) — "
-                     "every schedule for 1..2 such actors and selected 3-actor mixes (thorough: all 3-actor mixes over {get, validate-next, validate-issued} with >= 1 cancellable); the scripted PD honours the "
+                     "every schedule for 1..2 such actors and selected 3-actor mixes (thorough: all 3-actor mixes over {get, validate-next} with >= 1 cancellable, plus selected mixes with the other kinds and the updater); the scripted PD honours the "
                      "context of the request it serves; property: a call may only fail if its OWN context was cancelled (a live validate call of an issued ts must be accepted); "
                      "seeded random schedules with 2..8 actors (half of the worlds with the updater), async calls, stale-read flag, PD jumps across physical boundaries; after every op the model must predict "
                      "the returned value / verdicts / cached ts; `check` evaluates the property on the implementation's own observations "
